@@ -42,6 +42,24 @@ def refine_terms(d, op, a, c, truth):
             d.add(a[0], c[0], c[1] - a[1] - 1)
         elif d.entails(c[0], a[0], a[1] - c[1]):
             d.add(c[0], a[0], a[1] - c[1] - 1)
+        else:
+            # neither direction known yet: remember  a − c ≠ k  and sharpen a later `≤` / `≥` into `<` / `>`
+            if getattr(d, "neq", None) is None:
+                d.neq = set()
+            d.neq.add((a[0], c[0], c[1] - a[1]))
+        return
+    # a bound was added: a remembered disequality on the same pair may now make it strict
+    for (x, y, k) in list(getattr(d, "neq", None) or ()):
+        if d.bottom:
+            break
+        if d.entails(x, y, k - 1) or d.entails(y, x, -k - 1):
+            d.neq.discard((x, y, k))
+        elif d.entails(x, y, k):
+            d.add(x, y, k - 1)
+            d.neq.discard((x, y, k))
+        elif d.entails(y, x, -k):
+            d.add(y, x, -k - 1)
+            d.neq.discard((x, y, k))
 
 
 def refuted(d, op, a, c, truth):
@@ -283,7 +301,8 @@ class SelectionProof:
                 self.switch(st, t, nxt)
             if st.d.bottom:
                 return "infeasible", None, ""
-        return st, ret_sym, ""
+        # the return place may also be filled by moving a local that holds the (tracked) result: `let found = …; found`
+        return st, (ret_sym if ret_sym is not None else st.val.get(0)), ""
 
     def diverging_edges(self, st, bb, t):
         """every successor of this switch from which no return is reachable (a panic) must be excluded by the current state"""
